@@ -227,3 +227,71 @@ def template_sites(repo, set_names):
                         sites.append({"file": os.path.relpath(path, repo), "line": i, "name": name, "kind": kind,
                                       "detail": detail, "code": line.strip()[:160]})
     return sites
+
+
+# ---------------------------------------------------------------------------------------------------------
+# ambient inputs: anything besides the request (and the option files it references) the generator could read
+AMBIENT_MODULES = {"datetime", "time", "random", "uuid", "socket", "getpass", "platform", "secrets", "locale", "tempfile"}
+AMBIENT_OS = {"getcwd", "getenv", "environ", "getpid", "urandom", "uname", "getlogin", "listdir", "walk", "scandir", "stat", "cpu_count"}
+AMBIENT_PATH = {"isdir", "isfile", "exists", "abspath", "realpath", "expanduser", "getmtime", "getsize"}
+AMBIENT_BUILTINS = {"id", "hash", "input"}
+
+
+def ambient_sites(repo):
+    """uses of the clock, randomness, process environment, working directory, file-system probes and object identity in
+    gapic/**/*.py (AST): [{file, function, what, line, code}]"""
+    sites = []
+    for path in sorted(py_files(repo)):
+        text = open(path).read()
+        try:
+            tree = ast.parse(text)
+        except SyntaxError:
+            continue
+        mods = {}            # local name -> module (import datetime / import datetime as dt / from os import path)
+        for node in ast.walk(tree):
+            if isinstance(node, ast.Import):
+                for a in node.names:
+                    mods[a.asname or a.name.split(".")[0]] = a.name
+            elif isinstance(node, ast.ImportFrom) and node.module:
+                for a in node.names:
+                    mods[a.asname or a.name] = f"{node.module}.{a.name}"
+        parents = {}
+        for node in ast.walk(tree):
+            for ch_ in ast.iter_child_nodes(node):
+                parents[ch_] = node
+
+        def func_of(n):
+            while n in parents:
+                n = parents[n]
+                if isinstance(n, (ast.FunctionDef, ast.AsyncFunctionDef)):
+                    return n.name
+            return "<module>"
+        for node in ast.walk(tree):
+            what = None
+            if isinstance(node, ast.Attribute):
+                chain = []
+                cur = node
+                while isinstance(cur, ast.Attribute):
+                    chain.append(cur.attr)
+                    cur = cur.value
+                if isinstance(cur, ast.Name) and cur.id in mods and not isinstance(parents.get(node), ast.Attribute):
+                    full = mods[cur.id].split(".") + list(reversed(chain))
+                    root = full[0]
+                    if root in AMBIENT_MODULES:
+                        what = ".".join(full)
+                    elif root == "os" and len(full) > 1 and full[1] in AMBIENT_OS:
+                        what = ".".join(full)
+                    elif root == "os" and len(full) > 2 and full[1] == "path" and full[2] in AMBIENT_PATH:
+                        what = ".".join(full)
+                    elif root == "sys" and len(full) > 1 and full[1] in ("argv", "platform", "executable", "stdin"):
+                        what = ".".join(full)
+            elif isinstance(node, ast.Call) and isinstance(node.func, ast.Name) and node.func.id in AMBIENT_BUILTINS \
+                    and node.func.id not in mods:
+                what = node.func.id + "()"
+            elif isinstance(node, ast.Name) and node.id in mods and mods[node.id].split(".")[0] in AMBIENT_MODULES \
+                    and "." in mods[node.id] and isinstance(parents.get(node), ast.Call) and parents[node].func is node:
+                what = mods[node.id] + "()"          # from time import time; time()
+            if what:
+                sites.append({"file": os.path.relpath(path, repo), "function": func_of(node), "what": what,
+                              "line": getattr(node, "lineno", 0), "code": (ast.get_source_segment(text, node) or "")[:80]})
+    return sites
